@@ -43,6 +43,7 @@ class SrtParagraph:
     self._begin: Optional[ClockTime] = None
     self._end: Optional[ClockTime] = None
     self._text: str = ""
+    self._has_text: bool = False
 
   def set_begin(self, offset: Fraction):
     """Sets the paragraph begin time code"""
@@ -65,13 +66,9 @@ class SrtParagraph:
     """Returns the paragraph end time code"""
     return self._end
 
-  # the tags that the writer emits
-  _TAG_RE = re.compile(r"</?[biu]>|<font color=\"[^\"]*\">|</font>")
-
   def is_only_whitespace(self):
     """Returns whether the paragraph text, tags excluded, contains only whitespace or is empty"""
-    text = SrtParagraph._TAG_RE.sub("", self._text)
-    return len(text) == 0 or text.isspace()
+    return not self._has_text
 
   def normalize_eol(self):
     """Remove line breaks at the beginning and end of the paragraph, and replace
@@ -81,6 +78,11 @@ class SrtParagraph:
   def append_text(self, text: str):
     """Appends text to the paragraph"""
     self._text += text
+    self._has_text = self._has_text or not (len(text) == 0 or text.isspace())
+
+  def append_tag(self, tag: str):
+    """Appends a formatting tag, which is not text, to the paragraph"""
+    self._text += tag
 
   def to_string(self, sub_number: int=None) -> str:
     """Returns the SRT paragraph as a formatted string"""
